@@ -1,6 +1,7 @@
 import Chess.Lemmas.Reach
 import Chess.Lemmas.Mate
 import Chess.Lemmas.Mate2
+import Chess.Lemmas.RepetitionGuard
 
 /-!
 # C10 — forced mates within the horizon are found; dead positions are reported as such
@@ -144,6 +145,33 @@ theorem strong_reading_fails_with_transpositions :
       KeepsMateWithin exT 2 0 0 ∧ (∀ x y, exT.hash x = exT.hash y → x = y) ∧ ¬ ∃ lvl, Graded exT 0 lvl :=
   ⟨exT_forced, exT_unique, exT_strong_fails, exT_move0, exT_inj, exT_not_graded⟩
 
+open Chess.Search.Mate2 Chess.Search.Rep in
+/-- **C10.9 the known finding, as a theorem about the model** (`Lemmas/RepetitionGuard*.lean`): in
+every reachable chess game whose record ends `… x m0 x' M' x` (the opponent has just repeated its
+move, so the root's repetition guard takes `m0` out of the move list) and in which `m0` is the ONLY
+move that keeps a forced mate, the engine — fresh table, flag up, any depth limit — answers with a
+legal move other than `m0` that keeps no forced mate in either reading. C10 is false of model and
+code alike in this situation; that is why every mate theorem above carries `m1 ∈ rootMoves`. -/
+theorem repetition_guard_gives_up_the_mate {g : Game} (h : Reach g) (m0 : Move)
+    (hrec : ∃ x M' x' rest, g.moveStack = x :: M' :: x' :: m0 :: x :: rest)
+    (hl2 : 2 ≤ (g.getMoves true).1.length)
+    (honly : ∀ m, KeepsForcedMate Uci.chessOps g m → m = m0)
+    (runs : Nat → Bool) (hr : ∀ i, runs i = true) (off : Bool) (md : Option Nat) :
+    ∃ m, (driver Uci.chessOps runs g {} off md).found = some m ∧ m ∈ (g.getMoves true).1 ∧
+      m ≠ m0 ∧ ¬ KeepsForcedMate Uci.chessOps g m ∧ ¬ KeepsMate Uci.chessOps g m :=
+  chess_guard_gives_up_the_mate h m0 hrec hl2 honly runs hr off md
+
+open Chess.Search.Mate2 Chess.Search.Rep in
+/-- the generic form, and a concrete game meeting all its hypotheses (kernel-checked): a forced
+mate in two through the guarded move only, which the engine does not play -/
+theorem guard_finding_generic (o : Ops G M) (P : G → Prop) (hP : EvalOk o P) (g : G)
+    (hroot : ∀ m ∈ o.checked g, P (o.push g m)) (m0 : M) (h2 : ForcedMate2 o g m0)
+    (hrep : o.repetition g = some m0) (hnd : (o.checked g).Nodup)
+    (hl2 : 2 ≤ (o.checked g).length) (honly : ∀ m, KeepsForcedMate o g m → m = m0)
+    (runs : Nat → Bool) (hr : ∀ i, runs i = true) (off : Bool) (md : Option Nat) :
+    ¬ ∃ m, (driver o runs g {} off md).found = some m ∧ KeepsForcedMate o g m :=
+  c10_fails_under_guard o P hP g hroot m0 h2 hrep hnd hl2 honly runs hr off md
+
 /-- chess instance of C10.2 -/
 example (g : Game) (h : (g.getMoves true).1 = []) :
     (driver Uci.chessOps (fun _ => true) g {} false none).found = none :=
@@ -161,3 +189,5 @@ end Chess.Props.C10
 #print axioms Chess.Props.C10.mate_in_two_strong_partial
 #print axioms Chess.Props.C10.reported_mate_score_is_sound_partial
 #print axioms Chess.Props.C10.strong_reading_fails_with_transpositions
+#print axioms Chess.Props.C10.repetition_guard_gives_up_the_mate
+#print axioms Chess.Props.C10.guard_finding_generic
